@@ -234,7 +234,8 @@ impl SubscribeProperties {
                 PropertyType::SubscriptionIdentifier => {
                     let (id_len, sub_id) = length(bytes.iter())?;
                     // TODO: Validate 1 +. Tests are working either way
-                    cursor += 1 + id_len;
+                    // the identifier byte is already counted above
+                    cursor += id_len;
                     bytes.advance(id_len);
                     id = Some(sub_id)
                 }
